@@ -175,6 +175,8 @@ struct World {
 
     // declared last: destroyed first (stop() joins the worker before anything it may still touch goes away)
     std::unique_ptr<cocls::thread_pool> pool;
+    // a thread pool that has been stopped before the program starts (step pc)
+    std::unique_ptr<cocls::thread_pool> dead;
 
     bool all_done() const {
         for (int c = 1; c <= created; c++) {
@@ -383,6 +385,15 @@ cocls::async<void> body(World &w, int me, Tok tok) {
             { SPv mine = co_await cocls::self(); }   // discarded: queued (coroutine mode)
             { Obs<std::suspend_always> o(w, me, i, [] { return std::suspend_always{}; }); co_await o; }
             w.log(me, i, "e");
+        } else if (k == "pc") {
+            // co_await of a pool that is already stopped: cancelled at once, through the ready queue
+            bool canceled = false;
+            {
+                Obs<cocls::thread_pool::co_awaiter> o(w, me, i, [&] { return w.dead->operator co_await(); });
+                try { co_await o; } catch (const cocls::await_canceled_exception &) { canceled = true; }
+            }
+            if (!canceled) w.err("co_await of a stopped thread pool did not report the cancellation");
+            w.log(me, i, "e");
         } else if (k == "cd") {
             cocls::coro_queue::create_suspend_point([&] { w.prom[a](); });
         } else if (k == "ca") {
@@ -541,6 +552,10 @@ static void run_scenario(const Scenario &sc, Reporter &rep) {
                 d.k == "ha" || d.k == "hm" || d.k == "cd" || d.k == "ca" || d.k == "ct" ||
                 d.k == "ir" || d.k == "ix" || d.k == "cr" || d.k == "cx") maxk = std::max(maxk, d.a);
             if (d.k == "po" || d.k == "pr" || d.k == "pw" || d.k == "px") use_pool = true;   // (artefacts without the flag)
+            if (d.k == "pc" && !w->dead) {
+                w->dead.reset(new cocls::thread_pool(1));
+                w->dead->stop();
+            }
             w->script[c].push_back(d);
             jl.push(J::list().push(d.k).push(d.a));
         }
